@@ -37,9 +37,12 @@ META = dict(
     category='other',
     text='Per-statement obligations of the billing invariant decided on every writer of the four aggregate tables: same duration function in both '
          'triggers and in the audit, increment = duration difference x quantity with insert/on-duplicate symmetry and correct keys, complementary '
-         'row coverage, idempotent resource registration, sum-preserving compaction, closed-world writers.',
-    note='Trusted: SQL parser, migration replay; MySQL trigger semantics (AFTER INSERT does not fire for a duplicate-key no-op). Date roll-over and numeric totals not decided.',
-    technique='static analysis: SQL AST normal forms, sibling agreement between the two billing triggers and the audit query, closed-world writer scan',
+         'row coverage, idempotent resource registration, sum-preserving compaction, closed-world writers; and the conditions that enclose the aggregate upserts '
+         'are TRUE whenever the billed duration changes, decided over the order domain of (OLD row, stored row) pairs that the writers of attempts and the BEFORE UPDATE trigger produce.',
+    note='Trusted: SQL parser, migration replay; MySQL trigger semantics (AFTER INSERT does not fire for a duplicate-key no-op). Date roll-over and numeric totals not decided. '
+         'R6 over-approximates the reachable attempt rows (every OLD row with rollup <= end; call-chain NULL classes as in C03).',
+    technique='static analysis: SQL AST normal forms, sibling agreement between the two billing triggers and the audit query, closed-world writer scan, path conditions of the trigger body '
+              'evaluated symbolically (three-valued, linear forms over the gaps of each ordering class) on the abstract row pairs shared with C03',
     design_ref='DESIGN.md §3 C02',
 )
 
